@@ -152,3 +152,174 @@ def scalar_text(v: 'PV') -> str:
 def has_scalar_core_tag(n: 'YNode') -> bool:
     return (n.tag == STR_TAG or n.tag == INT_TAG or n.tag == FLOAT_TAG
             or n.tag == BOOL_TAG or n.tag == NULL_TAG)
+
+
+# ---- UnknownNode.require_scalar(*types)  (C16)
+
+@spec
+def all_scalar_from(ts: 'Seq[Ty]', i: int) -> bool:
+    """ts[i:] are all scalar types (the documented argument domain)"""
+    if i >= len(ts):
+        return True
+    if i < 0:
+        return False
+    return is_scalar_type(ts[i]) and all_scalar_from(ts, i + 1)
+
+
+@spec
+def tag_among(tag: str, ts: 'Seq[Ty]', i: int) -> bool:
+    """tag is the tag of one of the first i types"""
+    if i <= 0:
+        return False
+    return tag_among(tag, ts, i - 1) or tag == scalar_tag(ts[i - 1])
+
+
+def first_value(n: 'YNode', a: str) -> 'YNode':
+    """value node of the first pair whose key is spelled a"""
+    return n.pairs[at(n, a)].v
+
+
+@lemma(induct='n', triggers=['tag_among(tag, ts, i)', 'tag_among(tag, ts, n)'])
+def tag_among_hit(tag: str, ts: 'Seq[Ty]', i: int, n: int) -> bool:
+    return implies(0 <= i and i < n and tag == scalar_tag(ts[i]),
+                   tag_among(tag, ts, n))
+
+
+@spec
+def strkey_count(ps: 'Seq[YPair]', a: str, i: int) -> int:
+    """pairs among the first i whose key is a str-tagged scalar spelled a"""
+    if i <= 0:
+        return 0
+    return strkey_count(ps, a, i - 1) + (
+        1 if ps[i - 1].k.tag == STR_TAG and keyeq(ps[i - 1], a) else 0)
+
+
+@lemma(induct='n', triggers=['strkey_count(ps, a, n)'])
+def strkey_count_nonneg(ps: 'Seq[YPair]', a: str, n: int) -> bool:
+    return strkey_count(ps, a, n) >= 0
+
+
+@spec
+def scalar_values_ok(ps: 'Seq[YPair]', i: int) -> bool:
+    """the scalar value nodes among the first i pairs carry text in the
+    domain of the constructor of their tag -- true of every scalar PyYAML
+    typed implicitly (C09 / PyYAML's own tables); an explicit core tag on
+    garbage (known finding D10) is excluded"""
+    if i <= 0:
+        return True
+    return scalar_values_ok(ps, i - 1) and scalar_text_ok(ps[i - 1].v)
+
+
+def scalar_text_ok(n: 'YNode') -> bool:
+    return implies(n.kind == SCALAR, (
+        implies(n.tag == INT_TAG, yaml_int_dom(n.val))
+        and implies(n.tag == FLOAT_TAG, yaml_float_dom(n.val))
+        and implies(n.tag == BOOL_TAG, yaml_bool_dom(n.val))))
+
+
+@lemma(induct='n', triggers=['scalar_values_ok(ps, n)', 'strkey_count(ps, a, i)'])
+def scalar_values_member(ps: 'Seq[YPair]', a: str, i: int, n: int) -> bool:
+    return implies(0 <= i and i < n and scalar_values_ok(ps, n),
+                   scalar_text_ok(ps[i].v))
+
+
+def strkeyeq(p: 'YPair', a: str) -> bool:
+    return p.k.tag == STR_TAG and keyeq(p, a)
+
+
+@spec
+def sidx(ps: 'Seq[YPair]', a: str, i: int) -> int:
+    """index of the first pair among the first i with a str key spelled a"""
+    if i <= 0:
+        return -1
+    if sidx(ps, a, i - 1) != -1:
+        return sidx(ps, a, i - 1)
+    return i - 1 if strkeyeq(ps[i - 1], a) else -1
+
+
+@lemma(induct='n', triggers=['sidx(ps, a, i)', 'sidx(ps, a, n)'])
+def sidx_first(ps: 'Seq[YPair]', a: str, i: int, n: int) -> bool:
+    return implies(0 <= i and i < n and n <= len(ps)
+                   and sidx(ps, a, i) == -1 and strkeyeq(ps[i], a),
+                   sidx(ps, a, n) == i)
+
+
+@lemma(induct='n', triggers=['sidx(ps, a, n)', 'strkey_count(ps, a, n)'])
+def sidx_count(ps: 'Seq[YPair]', a: str, n: int) -> bool:
+    return (sidx(ps, a, n) == -1) == (strkey_count(ps, a, n) == 0)
+
+
+def constructed_pv(n: 'YNode') -> 'PV':
+    """the Python value a load constructs from a core-tagged scalar node"""
+    if n.tag == STR_TAG:
+        return mk_pv_str(n.val)
+    if n.tag == INT_TAG:
+        return mk_pv_int(yaml_int(n.val))
+    if n.tag == FLOAT_TAG:
+        return mk_pv_float(yaml_float(n.val))
+    if n.tag == BOOL_TAG:
+        return mk_pv_bool(yaml_bool(n.val))
+    return mk_pv_none()
+
+
+def value_is(n: 'YNode', v: 'PV') -> bool:
+    """n is a scalar of v's type whose constructed value equals v"""
+    return (n.kind == SCALAR and n.tag == scalar_tag(typeof(v))
+            and pv_equal(constructed_pv(n), v))
+
+
+@spec
+def all_value_is(ps: 'Seq[YPair]', a: str, v: 'PV', i: int) -> bool:
+    """every pair among the first i with a str key spelled a holds a scalar of
+    v's type equal to v"""
+    if i <= 0:
+        return True
+    return all_value_is(ps, a, v, i - 1) and implies(
+        strkeyeq(ps[i - 1], a), value_is(ps[i - 1].v, v))
+
+
+@lemma(induct='n', triggers=['all_value_is(ps, a, v, i)',
+                             'all_value_is(ps, a, v, n)'])
+def all_value_is_bad(ps: 'Seq[YPair]', a: str, v: 'PV', i: int,
+                     n: int) -> bool:
+    return implies(0 <= i and i < n and strkeyeq(ps[i], a)
+                   and not value_is(ps[i].v, v),
+                   not all_value_is(ps, a, v, n))
+
+
+def typed_as(n: 'YNode', v: 'PV') -> bool:
+    return n.kind == SCALAR and n.tag == scalar_tag(typeof(v))
+
+
+@spec
+def vn_state(ps: 'Seq[YPair]', a: str, v: 'PV', i: int) -> int:
+    """require_attribute_value_not scanning the first i pairs: 0 = every pair
+    keyed a so far is a scalar of v's type different from v, 1 = a pair keyed
+    a that is not a scalar of v's type was met first (accepted), 2 = a pair
+    keyed a equal to v was met first (rejected)"""
+    if i <= 0:
+        return 0
+    if vn_state(ps, a, v, i - 1) != 0:
+        return vn_state(ps, a, v, i - 1)
+    if not strkeyeq(ps[i - 1], a):
+        return 0
+    if not typed_as(ps[i - 1].v, v):
+        return 1
+    return 2 if value_is(ps[i - 1].v, v) else 0
+
+
+@lemma(induct='n', triggers=['vn_state(ps, a, v, i)', 'vn_state(ps, a, v, n)'])
+def vn_state_stop(ps: 'Seq[YPair]', a: str, v: 'PV', i: int, n: int) -> bool:
+    """once decided, the scan result does not change"""
+    return implies(0 <= i and i <= n and vn_state(ps, a, v, i) != 0,
+                   vn_state(ps, a, v, n) == vn_state(ps, a, v, i))
+
+
+@lemma(induct='n', triggers=['vn_state(ps, a, v, i)', 'vn_state(ps, a, v, n)'])
+def vn_state_hit(ps: 'Seq[YPair]', a: str, v: 'PV', i: int, n: int) -> bool:
+    """the first pair keyed a that is of another type / equal decides"""
+    return implies(0 <= i and i < n and vn_state(ps, a, v, i) == 0
+                   and strkeyeq(ps[i], a)
+                   and (not typed_as(ps[i].v, v) or value_is(ps[i].v, v)),
+                   vn_state(ps, a, v, n) == (
+                       1 if not typed_as(ps[i].v, v) else 2))
